@@ -458,8 +458,46 @@ def run_repeated_name_after_other_table(chk, spec):
 RUNNERS["repeated_name_after_other_table"] = run_repeated_name_after_other_table
 
 
+def run_hash_equal_right_tables(chk, spec):
+	"""two joins in a row whose right key columns differ only in values Python's hash() cannot tell apart (-1 / -2, 0 / 2**61 - 1, n / n + 2**61 - 1) at the same positions -
+	another table, or the same one after an in-place write: each join pairs by ==, nothing remembered under a hash of the first contents answers for the second"""
+	import warnings
+	P = 2 ** 61 - 1
+	how = spec["how"]
+	first_keys, second_keys = {"minus": ([-1, 5, 0], [-2, 5, 0]), "modulus": ([0, 5, 7], [P, 5, 7 + P]), "both": ([-1, 0, 3], [-2, P, 3]), "text-and-int": ([-1, 4, 4], [-2, 4, 4])}[spec["pair"]]
+	with warnings.catch_warnings():
+		warnings.simplefilter("ignore")
+		L = Table({"k": [-1, -2, 0, P, 5, 7, 7 + P, 3, 4], "lid": list(range(9))})
+		R1 = Table({"r": list(first_keys), "rid": [10, 11, 12]})
+		if spec["prefingerprint"]:
+			call(R1.fingerprint); call(R1["r"].fingerprint)
+		J.check_join(chk, chk.pid, "sampled", how, L, R1, ["k"], ["r"], key_mode=spec["key_mode"], expect="many_to_many", label="hash-equal-right-tables/first", sig=("hash-equal-right", how, spec["pair"], "first"))
+		if spec["second"] == "other-table":
+			R2 = Table({"r": list(second_keys), "rid": [10, 11, 12]})
+		else:
+			R2 = R1
+			for i, (a, b) in enumerate(zip(first_keys, second_keys)):
+				if a != b:
+					call(R2["r"].__setitem__, i, b) if spec["second"] == "written-through-handle" else call(R2.__setitem__, (i, "r"), b)
+		if spec["prefingerprint"]:
+			call(R2.fingerprint)
+		J.check_join(chk, chk.pid, "sampled", how, L, R2, ["k"], ["r"], key_mode=spec["key_mode"], expect="many_to_many", label="hash-equal-right-tables/second", sig=("hash-equal-right", how, spec["pair"], spec["second"]))
+		# ... and the roles exchanged: the hash-equal values on the LEFT of two successive joins
+		L2 = Table({"k": list(second_keys), "lid": [0, 1, 2]})
+		J.check_join(chk, chk.pid, "sampled", how, L2, R1 if R2 is not R1 else Table({"r": list(first_keys), "rid": [10, 11, 12]}), ["k"], ["r"], key_mode=spec["key_mode"], expect="many_to_many", label="hash-equal-right-tables/left", sig=("hash-equal-right", how, spec["pair"], "left"))
+
+
+RUNNERS["hash_equal_right_tables"] = run_hash_equal_right_tables
+
+
 def unique_keys_cases(chk, hows):
 	rng = chk.rng
+	for how in hows:
+		for pair in ("minus", "modulus", "both", "text-and-int"):
+			for second in ("other-table", "written-through-handle", "written-through-table"):
+				for key_mode in ("name", "vector"):
+					for pre in (False, True):
+						chk.case("hash_equal_right_tables", {"how": how, "pair": pair, "second": second, "key_mode": key_mode, "prefingerprint": pre}, "hash-equal-right-tables")
 	for how in hows:
 		for position in (0, 1, 2):
 			for side in ("left", "right"):
